@@ -73,7 +73,8 @@ func scanContracts(repo string) ([]string, error) {
 			}
 			return nil
 		}
-		if info.Name() == "contracts_verif.go" {
+		// contracts_verif.go, or contracts_<variant>_verif.go for files with further build constraints
+		if n := info.Name(); n == "contracts_verif.go" || strings.HasPrefix(n, "contracts_") && strings.HasSuffix(n, "_verif.go") {
 			out = append(out, p)
 		}
 		return nil
@@ -105,6 +106,9 @@ func LoadWorld(repo string, cfg BuildConfig, contractFiles []string, extraPkgs [
 	byDir := map[string][]*Contract{}
 	var dirs []string
 	for _, cf := range contractFiles {
+		if !buildTagsMatch(cf, tags) {
+			continue // a contract file for another build configuration
+		}
 		cs, _, err := parseContractFile(cf)
 		if err != nil {
 			return nil, err
@@ -305,6 +309,14 @@ func (w *World) contractFor(fn *ssa.Function) *Contract {
 	if strings.HasPrefix(pp, modPath) {
 		if c, ok := w.contracts[pp+"::"+key]; ok && (c.Kind == "func" || c.Kind == "closure") {
 			return c
+		}
+		// cgo stubs (_Cfunc_*) have generated bodies that call into C: assumed contracts (extern)
+		if strings.HasPrefix(key, "_Cfunc_") {
+			for _, c := range w.all {
+				if c.Kind == "extern" && c.Target == pp+"."+key {
+					return c
+				}
+			}
 		}
 		return nil
 	}
